@@ -37,8 +37,10 @@ class Impl:
         self.buffers = {}
         self.inds = {}
         self.objs = []
+        self.created_inds = {}   # indicator id -> Indicator created by an objective
         self.trace = []        # per op: 'ok' or 'err:<type>'
         self.solver = None
+        self._pairs = None
 
     # ---------------- formula translation (raw user expressions) ----------------
     def ivar(self, x):
@@ -234,8 +236,12 @@ class Impl:
         if h == 'CIndTarget':
             return ps.IndicatorTarget(indicator=self.inds[nval(e[1])], value=zval(e[2]), **kw)
         if h == 'CIndBounds':
-            return ps.IndicatorBounds(indicator=self.inds[nval(e[1])], lower_bound=optval(e[2], zval),
-                                      upper_bound=optval(e[3], zval), **kw)
+            extra = {}
+            if e[2] is not None:
+                extra['lower_bound'] = zval(e[2][1])
+            if e[3] is not None:
+                extra['upper_bound'] = zval(e[3][1])
+            return ps.IndicatorBounds(indicator=self.inds[nval(e[1])], **extra, **kw)
         raise ValueError('unknown constraint %r' % (h,))
 
     def exec_op(self, op):
@@ -299,7 +305,97 @@ class Impl:
             c = self.new_constraint(cid, op[2], op[3])
             self.cons[cid] = c
             return
+        if h == 'ONewBuffer':
+            bid = nval(op[1])
+            cls = ps.ConcurrentBuffer if op[2] else ps.NonConcurrentBuffer
+            kw = {}
+            for key, v in zip(('initial_level', 'final_level', 'lower_bound', 'upper_bound'), op[3:7]):
+                if v is not None:
+                    kw[key] = zval(v[1])
+            self.buffers[bid] = cls(name='B%d' % bid, **kw)
+            return
+        if h == 'ONewIndicator':
+            iid = nval(op[1])
+            self.inds[iid] = self.new_indicator(iid, op[2], op[3])
+            return
+        if h == 'ONewObjective':
+            before = set(self.pb.indicators.keys())
+            try:
+                o = self.new_objective(op[1])
+                self.objs.append(o)
+            finally:
+                for k, v in self.pb.indicators.items():
+                    if k not in before:
+                        self.inds[nval(op[2])] = v
+                        self.created_inds[nval(op[2])] = v
+            return
         raise ValueError('unknown op %r' % (h,))
+
+    def tasklist(self, ts):
+        return None if ts is None else [self.tasks[nval(x)] for x in ts[1]]
+
+    def new_indicator(self, iid, e, bounds):
+        h = e[0]
+        kw = dict(name='I%d' % iid)
+        if bounds is not None:
+            kw['bounds'] = (zval(bounds[1][1]), zval(bounds[1][2]))
+        if h == 'IExpr':
+            return ps.IndicatorFromMathExpression(expression=self.term(e[1]), **kw)
+        if h == 'IUtilization':
+            return ps.IndicatorResourceUtilization(resource=self.resobj(e[1]), **kw)
+        if h == 'INbTasks':
+            return ps.IndicatorNumberTasksAssigned(resource=self.resobj(e[1]), **kw)
+        if h == 'IIdle':
+            return ps.IndicatorResourceIdle(resource=self.resobj(e[1]), **kw)
+        if h == 'ITardiness':
+            return ps.IndicatorTardiness(list_of_tasks=self.tasklist(e[1]), **kw)
+        if h == 'IEarliness':
+            return ps.IndicatorEarliness(list_of_tasks=self.tasklist(e[1]), **kw)
+        if h == 'INbTardy':
+            return ps.IndicatorNumberOfTardyTasks(list_of_tasks=self.tasklist(e[1]), **kw)
+        if h == 'IMaxLateness':
+            return ps.IndicatorMaximumLateness(list_of_tasks=self.tasklist(e[1]), **kw)
+        if h == 'ICost':
+            return ps.IndicatorResourceCost(list_of_resources=[self.resobj(r) for r in e[1]], **kw)
+        if h == 'IMaxBuf':
+            return ps.IndicatorMaxBufferLevel(buffer=self.buffers[nval(e[1])], **kw)
+        if h == 'IMinBuf':
+            return ps.IndicatorMinBufferLevel(buffer=self.buffers[nval(e[1])], **kw)
+        raise ValueError('unknown indicator %r' % (h,))
+
+    def new_objective(self, o):
+        h = o[0]
+        if h == 'OMakespan':
+            return ps.ObjectiveMinimizeMakespan()
+        if h == 'OMaxUtilization':
+            return ps.ObjectiveMaximizeResourceUtilization(resource=self.resobj(o[1]))
+        if h == 'OMinCost':
+            return ps.ObjectiveMinimizeResourceCost(list_of_resources=[self.resobj(r) for r in o[1]])
+        tl = lambda ts: {} if ts is None else {'list_of_tasks': [self.tasks[nval(x)] for x in ts[1]]}
+        if h == 'OStartLatest':
+            return ps.ObjectiveTasksStartLatest(**tl(o[1]))
+        if h == 'OStartEarliest':
+            return ps.ObjectiveTasksStartEarliest()
+        if h == 'OGreatestStart':
+            return ps.ObjectiveMinimizeGreatestStartTime(**tl(o[1]))
+        if h == 'OFlowtime':
+            return ps.ObjectiveMinimizeFlowtime(**tl(o[1]))
+        if h == 'OPriorities':
+            return ps.ObjectivePriorities()
+        if h == 'OFlowtimeSingle':
+            kw = {}
+            if o[2] is not None:
+                kw['time_interval'] = (zval(o[2][1][1]), zval(o[2][1][2]))
+            return ps.ObjectiveMinimizeFlowtimeSingleResource(resource=self.resobj(o[1]), **kw)
+        if h == 'OMaxBufMax':
+            return ps.ObjectiveMaximizeMaxBufferLevel(buffer=self.buffers[nval(o[1])])
+        if h == 'OMinBufMax':
+            return ps.ObjectiveMinimizeMaxBufferLevel(buffer=self.buffers[nval(o[1])])
+        if h == 'OMinIndicator':
+            return ps.ObjectiveMinimizeIndicator(target=self.inds[nval(o[1])], weight=zval(o[2]))
+        if h == 'OMaxIndicator':
+            return ps.ObjectiveMaximizeIndicator(target=self.inds[nval(o[1])], weight=zval(o[2]))
+        raise ValueError('unknown objective %r' % (h,))
 
     def run(self, ops):
         """Execute until the first rejected op. Returns ('ok',) or ('err', idx, exc type)."""
@@ -336,6 +432,40 @@ class Impl:
                 continue
             for a, b in aux_pairs(owner, c.get_z3_assertions(), mapped):
                 pairs.append((a, b))
+        for iid, ind in self.inds.items():
+            owner = 'I%d' % iid
+            if iid in self.created_inds:
+                pairs.append((ind._indicator_variable, z3.Int('Indicator_' + owner)))
+            named = []
+            for c in consts_in_order(ind.get_z3_assertions()):
+                n = c.decl().name()
+                if n in ('SmallestStartTimeVar', 'GreatestStartTime'):
+                    named.append((0, c))
+                elif n.startswith('FlowtimeSingleResource'):
+                    named.append((0, c))
+                elif n.startswith('GreatestTaskEndTimeInTimePeriodForResource'):
+                    named.append((1, c))
+                elif n.startswith('SmallestTaskEndTimeInTimePeriodForResource'):
+                    named.append((2, c))
+            for k, c in named:
+                if c.get_id() not in mapped:
+                    mapped.add(c.get_id())
+                    pairs.append((c, z3.Int('%s_aux_%d' % (owner, k))))
+            for a, b in aux_pairs(owner, ind.get_z3_assertions(), mapped):
+                pairs.append((a, b))
+        # buffers: the sort variables are created by initialize(), buffer after buffer
+        if self.solver is not None and self.buffers:
+            fresh = [c for c in consts_in_order(list(self.solver._solver.assertions()))
+                     if _FRESH.match(c.decl().name()) and c.get_id() not in mapped]
+            fresh.sort(key=lambda c: int(_FRESH.match(c.decl().name()).group(1)))
+            pos = 0
+            order = {id(b): k for k, b in self.buffers.items()}
+            for b in self.pb.buffers:
+                n = len(b._unloading_tasks) + len(b._loading_tasks)
+                cnt = 2 * (n - 1) * n if isinstance(b, ps.ConcurrentBuffer) and n > 0 else (0 if isinstance(b, ps.ConcurrentBuffer) else n)
+                for k, c in enumerate(fresh[pos:pos + cnt]):
+                    pairs.append((c, z3.Int('B%d_aux_%d' % (order[id(b)], k))))
+                pos += cnt
         return pairs
 
     def initialize(self, **solver_kw):
